@@ -3,6 +3,7 @@
 From Coq Require Import List ZArith NArith Bool.
 From RRSS Require Import Base.Outcome Base.Chars Base.F64 Exec.Val Exec.Ops Front.Ast Exec.Env Exec.Interp Exec.RtErrorText.
 From RRSS Require Import Front.Token Front.Lexer Front.Parser Front.ParseErrorText Proofs.InterpInv Proofs.InterpLaws Proofs.EndToEnd.
+From RRSS Require Import Proofs.FuelMono.
 Import ListNotations.
 
 (** For EVERY syntax tree (parser-accepted or not), both build profiles (the debug profile turns
@@ -58,4 +59,12 @@ Example C09_example :
   (exists e, exec_program Release 50 [BNonEmpty [SBreak r]; BNonEmpty [SBreak r]] c = XOk (mkX Breaking None) e).
 Proof. cbv zeta. split; vm_compute; eexists; reflexivity. Qed.
 
+(** the statements above are "for every fuel"; fuel itself never changes an outcome: once a run has one,
+    every larger fuel gives the same *)
+Theorem C09_fuel_irrelevant :
+  forall prof f f' p c, (f <= f')%nat -> exec_program prof f p c <> XOutOfFuel ->
+  exec_program prof f' p c = exec_program prof f p c.
+Proof. exact exec_program_fuel_irrelevant. Qed.
+
 Print Assumptions C09_exec_no_crash.
+Print Assumptions C09_fuel_irrelevant.
